@@ -268,6 +268,18 @@ func ftNew(strategy string, cb, rl bool, hc int, pl bool) string {
 }
 
 // one client exchange; returns (ended, class, milliseconds)
+var ftRequestKinds = map[string]string{
+	"sse":   "Accept: text/event-stream\r\n",
+	"ssel":  "Accept: application/json, text/event-stream;q=0.9\r\nCache-Control: no-cache\r\n",
+	"wait":  "Prefer: wait=120\r\n",
+	"grpc":  "Content-Type: application/grpc\r\nTE: trailers\r\n",
+	"range": "Range: bytes=0-\r\n",
+	"keep":  "Keep-Alive: timeout=600\r\nX-Accel-Buffering: no\r\n",
+	"poll":  "X-Requested-With: XMLHttpRequest\r\nX-Long-Poll: 1\r\n",
+}
+
+var ftKindNames = []string{"grpc", "keep", "poll", "range", "sse", "ssel", "wait"}
+
 func (e *ftEnv) exchange(fault string, limit time.Duration) (bool, string, int64) {
 	t0 := time.Now()
 	c, err := net.DialTimeout("tcp", e.front.Addr().String(), time.Second)
@@ -298,15 +310,22 @@ func (e *ftEnv) exchange(fault string, limit time.Duration) (bool, string, int64
 		time.Sleep(80 * time.Millisecond) // Helios notices the client has gone and ends the exchange
 		return ended("client-abandoned")
 	}
+	// <fault>+<kind>: the same fault on a request that says something about itself — what kind of answer it
+	// would like, how long it is prepared to wait —; none of it changes what the timeouts promise
+	extra := ""
+	if i := strings.Index(fault, "+"); i >= 0 {
+		extra = ftRequestKinds[fault[i+1:]]
+		fault = fault[:i]
+	}
 	acceptGzip := strings.HasSuffix(fault, "z") // the same fault seen by a client that accepts gzip (the plugin then buffers)
 	fault = strings.TrimSuffix(fault, "z")
 	if fault == "upg" {
 		// a clean request that offers a protocol upgrade (the backend answers a plain 200)
-		_, _ = io.WriteString(c, "GET /x HTTP/1.1\r\nHost: verif.test\r\nConnection: Upgrade\r\nUpgrade: h2c\r\nAccept-Encoding: identity\r\n\r\n")
+		_, _ = io.WriteString(c, "GET /x HTTP/1.1\r\nHost: verif.test\r\nConnection: Upgrade\r\nUpgrade: h2c\r\nAccept-Encoding: identity\r\n"+extra+"\r\n")
 	} else if acceptGzip {
-		_, _ = io.WriteString(c, "GET /x HTTP/1.1\r\nHost: verif.test\r\nConnection: close\r\nAccept-Encoding: gzip\r\n\r\n")
+		_, _ = io.WriteString(c, "GET /x HTTP/1.1\r\nHost: verif.test\r\nConnection: close\r\nAccept-Encoding: gzip\r\n"+extra+"\r\n")
 	} else {
-		_, _ = io.WriteString(c, "GET /x HTTP/1.1\r\nHost: verif.test\r\nConnection: close\r\nAccept-Encoding: identity\r\n\r\n")
+		_, _ = io.WriteString(c, "GET /x HTTP/1.1\r\nHost: verif.test\r\nConnection: close\r\nAccept-Encoding: identity\r\n"+extra+"\r\n")
 	}
 	br := bufio.NewReader(c)
 	resp, err := http.ReadResponse(br, nil)
@@ -372,7 +391,7 @@ func ftOp(w []string) string {
 		time.Sleep(time.Duration(ms) * time.Millisecond)
 		return "ok"
 	case len(w) == 2 && w[0] == "req":
-		e.setMode(strings.TrimSuffix(w[1], "z"))
+		e.setMode(strings.TrimSuffix(strings.SplitN(w[1], "+", 2)[0], "z"))
 		ok, class, ms := e.exchange(w[1], e.clientLimit)
 		r := "ended=0"
 		if ok {
@@ -391,13 +410,18 @@ func ftOp(w []string) string {
 		var classes []string
 		maxMs := int64(0)
 		for wave := 0; wave < len(faults); wave++ {
-			e.setMode(faults[wave])
+			e.setMode(strings.SplitN(faults[wave], "+", 2)[0])
 			var wg sync.WaitGroup
 			for i := 0; i < n; i++ {
 				wg.Add(1)
+				f := faults[wave]
+				if strings.HasSuffix(f, "+*") {
+					// every kind of request in one wave
+					f = strings.TrimSuffix(f, "*") + ftKindNames[i%len(ftKindNames)]
+				}
 				go func() {
 					defer wg.Done()
-					ok, class, ms := e.exchange(faults[wave], 6*time.Second)
+					ok, class, ms := e.exchange(f, 6*time.Second)
 					if ok {
 						endedN.Add(1)
 					}
